@@ -117,10 +117,32 @@ class Tie:
 # simple fork-based parallel map (each worker owns a driver process)
 # ---------------------------------------------------------------------------------------------
 
+class _FormatAndDrop(__import__("logging").Handler):
+    """formats every record (so that lazy %-arguments are evaluated) and drops it"""
+
+    def emit(self, record):
+        self.format(record)
+
+
+def _debug_logging_on():
+    """Process state a deployment may have and the test suite never has: logging at DEBUG for every logger. Library code
+    guarded by `logger.isEnabledFor(DEBUG)` then runs. Half of the workers of every check run like this."""
+    import logging
+    logging.disable(logging.NOTSET)
+    root = logging.getLogger()
+    root.setLevel(logging.DEBUG)
+    root.addHandler(_FormatAndDrop())
+
+
 def _worker(args):
     fn, chunk, idx = args
     try:
-        return fn(chunk, idx)
+        if idx % 2 == 1:
+            _debug_logging_on()
+        out = fn(chunk, idx)
+        if idx % 2 == 1 and hasattr(out, "count"):
+            out.count("process-state:logging-at-DEBUG")
+        return out
     except Exception:
         return {"error": traceback.format_exc()}
 
